@@ -1,19 +1,26 @@
 (* C14 (network / netbuf part): a refused allocation is reported and changes nothing.
    Only statements, each closed by [exact], with Print Assumptions.
-   partial: the theorems cover the request constructors and netbuf_write_reserve / netbuf_read_wait
-   at the level of the models (which take the outcome of each allocation / registration as an
-   input); allocation failure INSIDE callbacks and leak accounting through the whole I/O stack
-   (DESIGN C14-G5) rest on the driver-level exploration of every failure index
-   (areas/net.py check_net_allocfail, ASan + LeakSanitizer). *)
+   partial: the theorems cover netbuf_write_reserve / netbuf_read_wait at the level of the models
+   (which take the outcome of each allocation / registration as an input); allocation failure
+   INSIDE callbacks and leak accounting through the whole I/O stack (DESIGN C14-G5) rest on the
+   driver-level exploration of every failure index (areas/net.py check_net_allocfail, ASan +
+   LeakSanitizer).
+   The two statements about the request constructors network_read / network_accept
+   (..._model_definition) only restate how the MODEL of these functions is defined: the model has no
+   allocator and no registration table, so "the cookie is freed again, nothing is left registered"
+   is not expressible in it.  For these functions the property is DECIDED by check_net_allocfail:
+   the k-th library allocation is refused for every k, LeakSanitizer gives a verdict per case (the
+   cookie taken from the pool is returned), "nfds=0" after cleanup says nothing stayed registered,
+   and the retried call must reproduce the baseline run. *)
 From Coq Require Import NArith ZArith List Bool Arith.
 From LCP Require Import Base.CheckedMem Gen.Repo_net Net.NetRW Net.NetAccept Net.NetbufRead Net.NetbufWrite.
 From LCP Require Import Net.NetbufReadProofs Net.NetbufWriteProofs Net.NetTie.
 Import ListNotations.
 Local Open Scope nat_scope.
 
-(* network_read / network_write / network_accept: when the cookie allocation or the registration
-   is refused, NULL is returned and no request exists (nothing registered, nothing to cancel) *)
-Theorem C14_network_read_alloc_failure : forall buf buflen min cookie_ok reg_ok,
+(* network_read / network_write / network_accept AS MODELLED: when the cookie allocation or the
+   registration is refused the model function returns "no request" (NULL).  Definitions, see header. *)
+Theorem C14_network_read_alloc_failure_model_definition : forall buf buflen min cookie_ok reg_ok,
   0 < buflen -> cookie_ok && reg_ok = false ->
   network_read buf buflen min cookie_ok reg_ok = Ok None.
 Proof.
@@ -28,12 +35,12 @@ Proof.
       end E
     end H).
 Qed.
-Print Assumptions C14_network_read_alloc_failure.
+Print Assumptions C14_network_read_alloc_failure_model_definition.
 
-Theorem C14_network_accept_alloc_failure : forall cookie_ok reg_ok,
+Theorem C14_network_accept_alloc_failure_model_definition : forall cookie_ok reg_ok,
   network_accept cookie_ok reg_ok = cookie_ok && reg_ok.
 Proof. exact (fun _ _ => eq_refl). Qed.
-Print Assumptions C14_network_accept_alloc_failure.
+Print Assumptions C14_network_accept_alloc_failure_model_definition.
 
 (* netbuf_write_reserve_flag (F6, repaired): a refused allocation leaves the writer exactly as it
    was - in particular reserved = 0 - so no later assert(W->reserved == 0) can fire *)
@@ -52,12 +59,25 @@ Theorem C14_old_reserve_failure_then_abort :
 Proof. exact old_reserve_failure_then_abort. Qed.
 Print Assumptions C14_old_reserve_failure_then_abort.
 
-(* netbuf_read_wait with any refused allocation / registration: returns (-1 is [None]) with the
-   window invariant intact, nothing pending, and the application's view unchanged - the same
-   wait can be made again *)
-Theorem C14_reader_wait_failure_clean : forall R k o,
+(* netbuf_read_wait(R, k) with refused allocations / registrations.  [wait_refused R k o]: the call
+   needs the immediate event and events_immediate_register is refused, or it needs more bytes and
+   either the buffer must grow (buflen < k) and malloc is refused, or network_read is refused.
+   The call returns -1 (a = None) EXACTLY in these cases, and then the reader is as before for the
+   application: window invariant intact, same bytes visible, nothing pending (neither a read nor
+   an immediate event) - the same wait can be made again.  (A successful resize / compaction that
+   precedes a refused network_read changes the block, not the view.) *)
+Theorem C14_reader_wait_failure_clean : forall R k o R' a,
+  rinv R -> r_reading R = false -> r_imm R = false ->
+  nbr_wait (N.to_nat RBUF_GROW) R k o = Ok (R', a) ->
+  (wait_refused R k o <-> a = None) /\
+  (a = None -> rinv R' /\ view R' = view R /\ r_reading R' = false /\ r_imm R' = false).
+Proof. exact (wait_failure_lemma (N.to_nat RBUF_GROW)). Qed.
+Print Assumptions C14_reader_wait_failure_clean.
+
+(* ... and the call itself never faults or asserts, whatever is refused (totality) *)
+Theorem C14_reader_wait_total : forall R k o,
   rinv R -> r_reading R = false -> r_imm R = false ->
   exists R' a, nbr_wait (N.to_nat RBUF_GROW) R k o = Ok (R', a) /\ rinv R' /\ view R' = view R /\
                act_ok R' k a.
 Proof. exact (wait_ok_lemma (N.to_nat RBUF_GROW)). Qed.
-Print Assumptions C14_reader_wait_failure_clean.
+Print Assumptions C14_reader_wait_total.
